@@ -106,6 +106,8 @@ def parse_work(arg):
             variants = [("minimal", P.Layout())]
             if rng.random() < 0.5:
                 variants.append(("redundant", P.Layout(seed=rng.random(), p_paren=0.35, p_ws=0.2)))
+            if rng.random() < 0.5:
+                variants.append(("compact", P.Layout(compact=True)))     # no optional white space at all: `xs[0]-1`, `a--1`
             for vname, lay in variants:
                 r = P.render(prog, lay)
                 if is_nat and vname == "minimal" and "(" in _strip_operand_parens(r.text, operands):
@@ -277,7 +279,7 @@ def deep_work(arg):
     for _ in range(count):
         t = tree(rng.randrange(2, 6))
         prog = [A.Declare(A.Var('r'), t)]
-        lay = P.Layout(seed=rng.random(), p_paren=rng.choice([0, 0, 0.2]), p_ws=rng.choice([0, 0.3]), p_break=rng.choice([0, 0.3]))
+        lay = P.Layout(seed=rng.random(), p_paren=rng.choice([0, 0, 0.2]), p_ws=rng.choice([0, 0.3]), p_break=rng.choice([0, 0.3]), compact=rng.random() < 0.4)
         r = P.render(prog, lay)
         texts.append(r.text)
         expects.append("ok|" + astdump.dump(prog, r))
